@@ -10,9 +10,11 @@ use crate::spec::RuleSpec;
 
 pub const ID: &str = "C02";
 
-/// Judge one case: rules[0] is the rule text, rules[1] the same rule with the condition wrapped in
-/// `not ( .. )`; every document is evaluated against both.
-pub fn judge(case: &Case) -> Outcome {
+/// Evaluate one case: rules[0] is the rule text, rules[1] the same rule with the condition wrapped
+/// in `not ( .. )`; every document is evaluated against both and compared with the reference.
+/// Returns per document (engine three-valued result, admissible set, whether a sub-result was
+/// widened because it is not judged).
+pub fn eval_case(case: &Case) -> Result<Vec<(Tri, reference::RSet, bool)>, Outcome> {
     let text = &case.rules[0];
     let neg_text = &case.rules[1];
     let refrule = match reference::load_rule_text(text, false) {
@@ -20,49 +22,62 @@ pub fn judge(case: &Case) -> Outcome {
         Err(RefErr::Invalid(why)) => {
             // the generator only writes rules it believes valid; if the engine loads it anyway the
             // reference front end is too strict somewhere - count, do not judge
-            return Outcome::Skip(format!("reference rejects rule: {why}"));
+            return Err(Outcome::Skip(format!("reference rejects rule: {why}")));
         }
-        Err(RefErr::Unsupported(why)) => return Outcome::Skip(format!("unsupported: {why}")),
+        Err(RefErr::Unsupported(why)) => return Err(Outcome::Skip(format!("unsupported: {why}"))),
     };
     let rule = match engine::load_text(text) {
         Load::Ok(r) => r,
         Load::Rejected(e) => {
-            return Outcome::Violation(format!("loader rejects a rule the language defines: {e}"));
+            return Err(Outcome::Violation(format!("loader rejects a rule the language defines: {e}")));
         }
-        Load::Panicked(p) => return Outcome::Violation(format!("loader panicked: {p}")),
+        Load::Panicked(p) => return Err(Outcome::Violation(format!("loader panicked: {p}"))),
     };
     let neg_rule = match engine::load_text(neg_text) {
         Load::Ok(r) => r,
         Load::Rejected(e) => {
-            return Outcome::Violation(format!("loader rejects the negated rule: {e}"));
+            return Err(Outcome::Violation(format!("loader rejects the negated rule: {e}")));
         }
-        Load::Panicked(p) => return Outcome::Violation(format!("loader panicked: {p}")),
+        Load::Panicked(p) => return Err(Outcome::Violation(format!("loader panicked: {p}"))),
     };
     let ev = Evaluator::new(&refrule, EvalOpts::default());
-    let mut seen = [false; 3];
-    let mut labels = vec![];
-    let mut evals = 0;
+    let mut out = vec![];
     for (i, doc) in case.docs.iter().enumerate() {
         let pos = match engine::matches(&rule, doc) {
             Ok(b) => b,
-            Err(p) => return Outcome::Violation(format!("matches() panicked on doc #{i}: {p}")),
+            Err(p) => return Err(Outcome::Violation(format!("matches() panicked on doc #{i}: {p}"))),
         };
         let neg = match engine::matches(&neg_rule, doc) {
             Ok(b) => b,
-            Err(p) => return Outcome::Violation(format!("matches() of negated rule panicked on doc #{i}: {p}")),
+            Err(p) => {
+                return Err(Outcome::Violation(format!("matches() of negated rule panicked on doc #{i}: {p}")))
+            }
         };
-        evals += 2;
         let tri = Tri::from_probe(pos, neg);
         let before = ev.not_judged.get();
         let set = ev.eval(doc);
         let widened = ev.not_judged.get() > before;
         if set & tri.bit() == 0 {
-            return Outcome::Violation(format!(
-                "doc #{i}: engine result {} (matches={pos}, not(..) matches={neg}) but the rule language admits only {}",
+            return Err(Outcome::Violation(format!(
+                "doc #{i} {}: engine result {} (matches={pos}, not(..) matches={neg}) but the rule language admits only {}",
+                doc.show(),
                 tri.show(),
                 show_set(set)
-            ));
+            )));
         }
+        out.push((tri, set, widened));
+    }
+    Ok(out)
+}
+
+pub fn judge(case: &Case) -> Outcome {
+    let results = match eval_case(case) {
+        Ok(r) => r,
+        Err(o) => return o,
+    };
+    let mut seen = [false; 3];
+    let mut labels = vec![];
+    for (tri, set, widened) in &results {
         match tri {
             Tri::T => {
                 seen[0] = true;
@@ -78,7 +93,7 @@ pub fn judge(case: &Case) -> Outcome {
             }
             Tri::Both => {}
         }
-        if widened {
+        if *widened {
             labels.push("doc_with_not_judged_subresult");
         }
         if set.count_ones() == 1 {
@@ -87,8 +102,8 @@ pub fn judge(case: &Case) -> Outcome {
     }
     let varied = seen.iter().filter(|s| **s).count() >= 2;
     Outcome::Pass {
-        nontrivial: if varied { Some(hash_str(text)) } else { None },
-        evaluations: evals,
+        nontrivial: if varied { Some(hash_str(&case.rules[0])) } else { None },
+        evaluations: 2 * results.len() as u64,
         labels,
     }
 }
